@@ -1334,5 +1334,222 @@ Section Replay.
     exact (nec_run _ _ _ [] _ _ HD0 HE0 (HI_init p st0) HFall Hall u1 a i u2 Hus Hno).
   Qed.
 
+  (* replace the override by None in ALL uses of index i *)
+  Definition strip (i : Z) (us : list (T * option Z)) : list (T * option Z) :=
+    map (fun x => match snd x with
+                  | Some j => if j =? i then (fst x, None) else x
+                  | None => x
+                  end) us.
+
+  Lemma first_some i : forall (l : list (T * option Z)) a, In (a, Some i) l ->
+    exists u1 a' u2, l = u1 ++ (a', Some i) :: u2 /\ forall b, ~ In (b, Some i) u1.
+  Proof.
+    induction l as [|[b ov] l IH]; intros a H; [destruct H|].
+    destruct ov as [j|]; [destruct (Z.eq_dec j i) as [->|Hne]|].
+    - exists [], b, l. split; [reflexivity|]. intros c [].
+    - destruct H as [H|H]; [inversion H; lia|].
+      destruct (IH _ H) as (u1 & a' & u2 & -> & Hno).
+      exists ((b, Some j) :: u1), a', u2. split; [reflexivity|].
+      intros c [Hc|Hc]; [inversion Hc; lia | eapply Hno; eauto].
+    - destruct H as [H|H]; [discriminate|].
+      destruct (IH _ H) as (u1 & a' & u2 & -> & Hno).
+      exists ((b, None) :: u1), a', u2. split; [reflexivity|].
+      intros c [Hc|Hc]; [discriminate | eapply Hno; eauto].
+  Qed.
+
+  Lemma strip_id i u : (forall b, ~ In (b, Some i) u) -> strip i u = u.
+  Proof.
+    intros H. unfold strip. rewrite <- (map_id u) at 2. apply map_ext_in.
+    intros [b ov] Hin. cbn [fst snd]. destruct ov as [j|]; [|reflexivity].
+    destruct (j =? i) eqn:E; [|reflexivity]. assert (j = i) by lia; subst.
+    exfalso. eapply H; eauto.
+  Qed.
+
+  (* dropping the override of index i everywhere makes the replay produce other operands
+     (or fail) *)
+  Theorem strip_differs p idxs uses st adds st0 a i :
+    0 <= p <= zlen tbl -> preset_unique p -> Forall in_range idxs ->
+    found_all (toargs_init tbl p) idxs = OK (uses, st) ->
+    additional_args keq st = OK adds ->
+    set_all (take p tbl) 0 fromargs_empty = OK st0 ->
+    In (a, Some i) (uses ++ adds) ->
+    forall is' st', add_all st0 (strip i (uses ++ adds)) = OK (is', st') ->
+                    is' <> idxs ++ unused p idxs.
+  Proof.
+    intros Hp Hu HF Hf Hadd Hs Hin is' st' Hm.
+    destruct (first_some _ _ _ Hin) as (u1 & a' & u2 & Hus & Hno).
+    destruct (override_necessary _ _ _ _ _ _ _ _ _ _ Hp Hu HF Hf Hadd Hs Hus Hno)
+      as (l1 & fs1 & Hall & Hn).
+    destruct (replay_core _ _ _ _ _ Hp Hu HF Hf Hadd)
+      as (st2 & fs0 & fs1' & fs2 & _ & Hs' & _ & _ & H1 & _ & _ & H2 & _).
+    assert (fs0 = st0) by congruence. subst fs0.
+    rewrite (missing_unused _ _ _ _ Hf) in H2.
+    assert (Horig : add_all st0 (uses ++ adds) = OK (idxs ++ unused p idxs, fs2)).
+    { now rewrite add_all_app, H1, H2. }
+    rewrite Hus, add_all_app, Hall in Horig. cbn [add_all] in Horig.
+    destruct (fa_add keq fs1 a' (Some i)) as [[i' fsx]|] eqn:Efa; [|discriminate].
+    assert (i' = i).
+    { cbn [fa_add] in Efa. destruct (fa_setitem keq fs1 i a'); [|discriminate].
+      now inversion Efa. }
+    subst i'. destruct (add_all fsx u2) as [[l2 fsy]|]; [|discriminate].
+    injection Horig as Horig _.
+    rewrite Hus in Hm. unfold strip in Hm. rewrite map_app in Hm. fold (strip i u1) in Hm.
+    rewrite (strip_id _ _ Hno) in Hm. cbn [map fst snd] in Hm. rewrite Z.eqb_refl in Hm.
+    rewrite add_all_app, Hall in Hm. cbn [add_all] in Hm.
+    destruct (fa_add keq fs1 a' None) as [[j fsj]|] eqn:Ej; [|discriminate].
+    destruct (add_all fsj _) as [[l2' fsz]|]; [|discriminate].
+    injection Hm as Hm _. intros Heq. rewrite <- Hm, <- Horig in Heq.
+    apply app_inv_head in Heq. inversion Heq. eapply Hn; eauto.
+  Qed.
+
   End WithTable.
 End Replay.
+
+(* ------------------------------------------------------------------ *)
+(** * Checked instances (duplicate keys simulated by parity) *)
+
+Module Examples.
+  Definition k2 (x y : Z) : bool := (x mod 2 =? y mod 2).
+
+  Definition replay (tbl : list Z) (p : Z) (idxs : list Z) :=
+    match found_all k2 (toargs_init tbl p) idxs with
+    | Err e => Err e
+    | OK (uses, st) =>
+      match additional_args k2 st with
+      | Err e => Err e
+      | OK adds =>
+        match set_all k2 (take p tbl) 0 fromargs_empty with
+        | Err e => Err e
+        | OK f0 =>
+          match add_all k2 f0 uses with
+          | Err e => Err e
+          | OK (is1, st1) =>
+            match add_all k2 st1 adds with
+            | Err e => Err e
+            | OK (is2, st2) =>
+                match fa_to_tuple st2 with
+                | OK t => OK (uses, adds, is1, is2, t)
+                | Err e => Err e
+                end
+            end
+          end
+        end
+      end
+    end.
+
+  (* duplicate keys, no preset: indices and table come back *)
+  Example replay_dups :
+    replay [10; 12; 11; 13; 14] 0 [0; 1; 0; 3; 2; 1] =
+    OK ([(10, None); (12, Some 1); (10, Some 0); (13, Some 3); (11, Some 2); (12, Some 1)],
+        [(14, Some 4)], [0; 1; 0; 3; 2; 1], [4], [10; 12; 11; 13; 14]).
+  Proof. vm_compute. reflexivity. Qed.
+
+  (* COUNTEREXAMPLE for the preset version without a uniqueness hypothesis: entry 2 has the key
+     of the preset entry 0, whose key the decoder never registers; the additional arg
+     (12, None) is merged into index 0 and the rebuilt table is [10; 11]. *)
+  Example preset_needs_unique_keys :
+    replay [10; 11; 12] 1 [1; 0; 1] =
+    OK ([(11, None); (10, None); (11, None)], [(12, None)], [1; 0; 1], [0], [10; 11]).
+  Proof. vm_compute. reflexivity. Qed.
+
+  (* why (iv) speaks of ALL uses / the FIRST use that carries the override: dropping only a
+     later override of index 1 leaves the replay unchanged *)
+  Example later_override_alone_is_droppable :
+    match add_all k2 fromargs_empty [(10, None); (12, Some 1); (12, None)] with
+    | OK (is, _) => is = [0; 1; 1]
+    | Err _ => False
+    end.
+  Proof. vm_compute. reflexivity. Qed.
+
+  (* ... whereas dropping all of them changes the operands *)
+  Example all_overrides_dropped :
+    match add_all k2 fromargs_empty [(10, None); (12, None); (12, None)] with
+    | OK (is, _) => is = [0; 0; 0]
+    | Err _ => False
+    end.
+  Proof. vm_compute. reflexivity. Qed.
+
+  (* without the override the encoder may also fail (index 0 used second: rank 1 <> 0) *)
+  Example dropped_override_may_fail :
+    add_all k2 fromargs_empty [(11, Some 1); (10, None)] = Err ValueError.
+  Proof. vm_compute. reflexivity. Qed.
+End Examples.
+
+(* ------------------------------------------------------------------ *)
+(** * Main statements *)
+
+Section Main.
+  Context {T : Type} (keq : T -> T -> bool).
+  Hypothesis keq_refl : forall x, keq x x = true.
+  Hypothesis keq_sym : forall x y, keq x y = keq y x.
+  Hypothesis keq_trans : forall x y z, keq x y = true -> keq y z = true -> keq x z = true.
+
+  (* the decoder never fails on in-range operands *)
+  Theorem tables_decoder_total : forall (tbl : list T) p idxs,
+    Forall (fun i => 0 <= i < zlen tbl) idxs ->
+    exists uses st adds,
+      found_all keq (toargs_init tbl p) idxs = OK (uses, st) /\
+      additional_args keq st = OK adds.
+  Proof. intros tbl p idxs HF. now apply decoder_total. Qed.
+
+  (* any table, duplicate keys included *)
+  Theorem tables_replay : forall (tbl : list T) (idxs : list Z) uses st adds,
+    Forall (fun i => 0 <= i < zlen tbl) idxs ->
+    found_all keq (toargs_init tbl 0) idxs = OK (uses, st) ->
+    additional_args keq st = OK adds ->
+    exists st1 st2 is2,
+      add_all keq fromargs_empty uses = OK (idxs, st1) /\
+      add_all keq st1 adds = OK (is2, st2) /\
+      fa_to_tuple st2 = OK tbl.
+  Proof.
+    intros tbl idxs uses st adds HF Hf Hadd.
+    destruct (tables_replay_preset_unique keq keq_refl keq_sym keq_trans tbl 0 idxs uses st adds)
+      as (st0 & st1 & st2 & is2 & Hs & H1 & H2 & H3); auto.
+    - unfold zlen. lia.
+    - intros i j a b Hi. lia.
+    - cbn in Hs. inversion Hs; subst st0. eauto. Show.
+  Qed.
+
+  (* preset prefix (co_varnames): the preset entries must have keys that occur nowhere else *)
+  Theorem tables_replay_preset_unique_keys : forall (tbl : list T) p idxs uses st adds,
+    0 <= p <= zlen tbl ->
+    (forall i j a b, 0 <= i < p -> 0 <= j < zlen tbl -> j <> i ->
+                     py_index tbl i = Some a -> py_index tbl j = Some b -> keq a b = false) ->
+    Forall (fun i => 0 <= i < zlen tbl) idxs ->
+    found_all keq (toargs_init tbl p) idxs = OK (uses, st) ->
+    additional_args keq st = OK adds ->
+    exists st0 st1 st2 is2,
+      set_all keq (take p tbl) 0 fromargs_empty = OK st0 /\
+      add_all keq st0 uses = OK (idxs, st1) /\
+      add_all keq st1 adds = OK (is2, st2) /\
+      fa_to_tuple st2 = OK tbl.
+  Proof. intros. eapply tables_replay_preset_unique; eauto. Qed.
+
+  (* ... in particular duplicate-free tables *)
+  Theorem tables_replay_preset : forall (tbl : list T) p idxs uses st adds,
+    (forall i j a b, 0 <= i < zlen tbl -> 0 <= j < zlen tbl -> i <> j ->
+                     py_index tbl i = Some a -> py_index tbl j = Some b -> keq a b = false) ->
+    0 <= p <= zlen tbl ->
+    Forall (fun i => 0 <= i < zlen tbl) idxs ->
+    found_all keq (toargs_init tbl p) idxs = OK (uses, st) ->
+    additional_args keq st = OK adds ->
+    exists st0 st1 st2 is2,
+      set_all keq (take p tbl) 0 fromargs_empty = OK st0 /\
+      add_all keq st0 uses = OK (idxs, st1) /\
+      add_all keq st1 adds = OK (is2, st2) /\
+      fa_to_tuple st2 = OK tbl.
+  Proof.
+    intros tbl p idxs uses st adds Hdf Hp. apply tables_replay_preset_unique; auto.
+    apply dup_free_preset_unique; [lia | exact Hdf].
+  Qed.
+End Main.
+
+Print Assumptions tables_decoder_total.
+Print Assumptions tables_replay.
+Print Assumptions tables_replay_preset_unique_keys.
+Print Assumptions tables_replay_preset.
+Print Assumptions adds_exact.
+Print Assumptions overrides_rank.
+Print Assumptions canonical_no_override.
+Print Assumptions override_necessary.
+Print Assumptions strip_differs.
